@@ -259,6 +259,7 @@ def run_batch(prop: str, tier: str, verif_seed: int, workers: int | None = None,
     mach = load_machine(prop)
     if hasattr(mach, "preload"):
         mach.preload()
+    seams.record_pristine()
     known = load_known_findings()
     kf = [k for k in known.get("findings", []) if k.get("property") == prop]
     cfg = dict(mach.TIERS[tier])
@@ -337,8 +338,10 @@ def run_batch(prop: str, tier: str, verif_seed: int, workers: int | None = None,
     reported = 0
     if violations:
         violations.sort(key=lambda v: v["index"])
-        v = violations[0]
-        exit_code, reported = report_violation(prop, mach, tier, verif_seed, v, kf, cfg.get("shrink_s", 60))
+        for v in violations[:4]:  # a run that does not reproduce in a fresh interpreter is a harness matter (exit 2)
+            exit_code, reported = report_violation(prop, mach, tier, verif_seed, v, kf, cfg.get("shrink_s", 60))
+            if exit_code == 1:
+                break
     elif agg["errors"] or broken:
         exit_code = 2
 
